@@ -25,4 +25,10 @@ PROPS = {
         "assumptions": [],
         "out_of_reach": ["body of compute_right_pseudo_inverse (data-dependent elimination loops on concrete matrices): covered as a ground obligation per constructed code plus through the symbolic client obligation inverse_encode(forward(m)) == m"],
     },
+    "C03": {
+        "level": "proof",
+        "trusted_base": ["vk.ground exact minimum-distance enumeration (Gray-code walk over the row space, k<=24; MacWilliams via the dual when n-k<=24), GF(2)[x] bitmask arithmetic independent of /repo", "C01 contract forward(x) == x.G ties the enumerated row space of the published G to the encoder's output"],
+        "assumptions": ["advertised distance read from minimum_distance()/minimum_distance/delta/error_correction_capability; repetition codes advertise d = n by documentation only"],
+        "out_of_reach": [],
+    },
 }
